@@ -541,6 +541,18 @@ struct Runner {
       fail(res, "shape", "node counts after the concurrent phase (leaves " + std::to_string(leaves) + ", inner " + std::to_string(in[0]) + "/" + std::to_string(in[1]) + "/" +
                              std::to_string(in[2]) + "/" + std::to_string(in[3]) + ") differ from the radix tree of the final key set (leaves " + std::to_string(sh.leaves) + ", inner " +
                              std::to_string(sh.inodes[0]) + "/" + std::to_string(sh.inodes[1]) + "/" + std::to_string(sh.inodes[2]) + "/" + std::to_string(sh.inodes[3]) + ")");
+    // counters move only when an inner node is created, replaced by one of another class, or dissolved: whatever the
+    // interleaving was, creations minus dissolutions minus promotions plus demotions of a class is its current population
+    {
+      const auto g = db.get_growing_inode_counts();
+      const auto s2 = db.get_shrinking_inode_counts();
+      for (size_t i = 0; i < 4; i++) {
+        const int64_t expect = static_cast<int64_t>(g[i]) - static_cast<int64_t>(s2[i]) - (i < 3 ? static_cast<int64_t>(g[i + 1]) - static_cast<int64_t>(s2[i + 1]) : 0);
+        if (expect != static_cast<int64_t>(in[i]))
+          fail(res, "counter-conservation", "growth/shrink counters imply " + std::to_string(expect) + " inner nodes of class #" + std::to_string(i) + " (created/promoted-in minus dissolved/promoted-out), the index reports " +
+                                                std::to_string(in[i]) + ": a counter moved without its structural change (or the other way round)");
+      }
+    }
     int nb = 0;
     const size_t held = live_bytes(&nb);
     if (held != db.get_current_memory_use() || static_cast<uint64_t>(nb) != leaves + in[0] + in[1] + in[2] + in[3])
